@@ -1318,7 +1318,7 @@ def theory_BER(
                     SER = SER(np.linspace(mu_OFF, mu_ON, 5000)).min()
     
             elif decision.lower()=='soft':
-                SER = 1-1/(2*pi)**0.5*quad(lambda x: (1-Q((mu_ON-mu_OFF+s[1]*x)/s[0]))**(M-1)*np.exp(-x**2/2),-np.inf,np.inf)[0]
+                SER = 1-1/(2*pi)**0.5*quad(lambda x: (1-Q((mu_ON-mu_OFF+s[1]*x)/s[0]))**(M-1)*np.exp(-x**2/2),-12,12,points=[x for x in (-(mu_ON-mu_OFF+k*8*s[0])/s[1] for k in (1,0,-1)) if -12<x<12] or None if s[1]>0 else None,limit=200)[0] # +-12 sigma with the step region of the integrand as break points (quad over an infinite range can miss it)
     
             else:
                 raise ValueError('decision must be "hard" or "soft"')
